@@ -157,21 +157,27 @@ def tr_read(s, ref):
 
 def check_not_handled(prog, rep):
     """C11.6: 'every failure is a handling error that renders as 4.xx / 5.xx': the code-less "not handled" error stands
-    for one thing only - there is no prepared response to write to (`response.ok_or_else(HandlingError::not_handled)`).
-    The handler never builds it directly."""
-    direct = []
-    for x in prog.bodies.values():
-        if x.get("promoted") or not x["path"].startswith("block_handler::") or "::tests" in x["id"]:
+    for one thing only - there is no prepared response to write to.  With a response prepared, neither entry point
+    ever builds it (decided on the traces of the entry points with `response = Some(..)`; where the constructor is
+    written - `ok_or_else(not_handled)`, a `None =>` arm - does not matter)."""
+    import blockutil
+    from blockutil import Trace
+    for entry in ("intercept_request", "intercept_response"):
+        built = []
+
+        def setup(tr_, I_, st_, built=built):
+            def hook(I__, s_, call, cbody):
+                if call.path == "error::HandlingError::not_handled":
+                    built.append(call.site)
+            I_.call_hooks.append(hook)
+        tr = Trace(prog, entry, setup=setup)
+        if not tr.ok:
+            rep.missing("C11.6", "BlockHandler::" + entry)
             continue
-        for bb in x["blocks"]:
-            t = bb["term"]
-            if t["k"] == "call" and not bb.get("cleanup"):
-                pth = (t.get("resolved") or t.get("callee") or {}).get("path", "") or ""
-                if pth == "error::HandlingError::not_handled":
-                    direct.append((x["path"], bb["tspan"]["l"]))
-    rep.ob("C11.6", "not-handled-only-for-missing-response", not direct,
-           "the block handler builds the code-less 'not handled' error itself (%s): with a response prepared, such a failure cannot be rendered "
-           "as a 4.xx / 5.xx reply" % direct[:3])
+        rep.ob("C11.6", "not-handled-only-for-missing-response|" + entry, not built,
+               "%s can build the code-less 'not handled' error although a response is prepared (at %s): such a failure cannot be rendered "
+               "as a 4.xx / 5.xx reply" % (entry, sorted(set("%s:%s" % (x.get("file"), x.get("line")) for x in built))[:3]),
+               {"file": tr.body["span"]["f"], "line": tr.body["span"]["l"], "fn": tr.body["path"]}, sample={"rule": "C11.6", "entry": entry, "paths": len(tr.res)})
 
 
 def check_reject_keeps_buffer(prog, rep):
